@@ -21,6 +21,7 @@ import StirVerif.C01.Model
 import StirVerif.C06.Model
 import StirVerif.C03.Model
 import StirVerif.C02.Model
+import StirVerif.C20.Model
 
 namespace StirVerif.Gen
 open StirVerif
@@ -513,5 +514,61 @@ theorem bridge_get_offset_unsupported (l : C02.Layout) (b : C02.Bin) (ord : Int)
   by_cases h4 : (l.minView ≤ b.view ∧ b.view ≤ l.maxView) <;>
   by_cases h5 : (l.minTang ≤ b.tang ∧ b.tang ≤ l.maxTang) <;>
   simp [h1, h2, h3, h4, h5, hord.1, hord.2.1, hord.2.2.1, hord.2.2.2] at hv ⊢
+
+
+/-! ## C20: `FanProjData`, `GeoData3D`, `DetPairData` of ML_norm.cxx
+
+Which element of the underlying array an access `operator()(…)` goes to (`index_tuple` kernels: the tuple of `[]` indices of the
+returned element), the membership tests `is_in_data`, `get_min_rb`, and the index ranges the constructors allocate (`call_args`
+kernels: the arguments of `fan_indices[ra][a].grow(…)` and of `fan_indices[ra][a][rb] = IndexRange<1>(…)`).  `get_min_b / get_max_b`
+read the allocated ranges back: that the array returns what was allocated is `IndexRange` / `Array` behaviour (C11, tie (C)). -/
+
+/-- `FanProjData::operator()(ra, a, rb, b)`: the element of the underlying `Array<4,float>` that is accessed -/
+theorem bridge_fan_key (d : C20.Dims) (ra a rb b : Int) :
+    fan_key d.N d.minB ra a rb b = d.storeKey ra a rb b := by
+  simp only [fan_key, C20.Dims.storeKey, Id.run, pure_id, decide_eq_true_eq]
+
+/-- `FanProjData::is_in_data`; `(*this)[ra][a].get_min_index() / get_max_index()` are the bounds the constructor allocates
+    (`bridge_fan_ctor_rb_range`) -/
+theorem bridge_fan_is_in_data (d : C20.Dims) (ra a rb b : Int) :
+    fan_is_in_data d.N d.minB d.maxB (d.loRb ra) (d.maxRb ra) ra a rb b = d.isInData ra a rb b := by
+  simp only [fan_is_in_data, C20.Dims.isInData, Id.run, pure_id]
+  bridge_split
+
+theorem bridge_fan_min_rb (d : C20.Dims) (ra : Int) : fan_min_rb d.md ra = d.minRb ra := by
+  simp only [fan_min_rb, C20.Dims.minRb, Id.run, pure_id]
+
+/-- the `rb` range allocated for `[ra][a]` by `FanProjData::FanProjData(num_rings, num_detectors_per_ring, max_ring_diff, fan_size)` -/
+theorem bridge_fan_ctor_rb_range (d : C20.Dims) (ra : Int) :
+    fan_ctor_rb_range d.R d.md ra = (d.loRb ra, d.maxRb ra) := by
+  simp only [fan_ctor_rb_range, C20.Dims.loRb, C20.Dims.maxRb, C20.Dims.minRb, Id.run, pure_id]
+
+/-- the `b` range allocated for `[ra][a][rb]` by the same constructor (`half_fan_size` is the member, `fan_size / 2`) -/
+theorem bridge_fan_ctor_b_range (d : C20.Dims) (a : Int) :
+    fan_ctor_b_range d.N d.h a = (d.minB a, d.maxB a) := by
+  simp only [fan_ctor_b_range, C20.Dims.minB, C20.Dims.maxB, Id.run, pure_id]
+
+/-- `GeoData3D::operator()`: `get_min_b(a) = a` is the first bound of `bridge_geo_ctor_b_range` -/
+theorem bridge_geo_key (g : C20.GeoDims) (ra a rb b : Int) :
+    geo_key g.N (fun a => (geo_ctor_b_range g.N a).1) ra a rb b = g.storeKey ra a rb b := by
+  simp only [geo_key, geo_ctor_b_range, C20.GeoDims.storeKey, Id.run, pure_id]
+  by_cases h : b < a <;> simp [h]
+
+theorem bridge_geo_ctor_b_range (g : C20.GeoDims) (a : Int) : geo_ctor_b_range g.N a = (a, a + g.N - 1) := by
+  simp only [geo_ctor_b_range, Id.run, pure_id]
+
+/-- `GeoData3D::GeoData3D`: `[ra][a]` holds `rb = ra .. num_rings - 1` (only the half `ra ≤ rb` is stored) -/
+theorem bridge_geo_ctor_rb_range (g : C20.GeoDims) (ra : Int) : geo_ctor_rb_range g.R ra = (ra, g.R - 1) := by
+  simp only [geo_ctor_rb_range, Id.run, pure_id]
+
+/-- `DetPairData::operator()(a, b)`: element `[a][b']` of the `Array<2,float>`; the model's key is `(0, a, 0, b')` -/
+theorem bridge_dp_key (d : C20.DPDims) (a b : Int) :
+    (let r := dp_key d.N d.minB a b; ((0 : Int), r.1, (0 : Int), r.2)) = d.storeKey a b := by
+  simp only [dp_key, C20.DPDims.storeKey, Id.run, pure_id, decide_eq_true_eq]
+
+theorem bridge_dp_is_in_data (d : C20.DPDims) (a b : Int) :
+    dp_is_in_data d.N d.minB d.maxB a b = d.isInData a b := by
+  simp only [dp_is_in_data, C20.DPDims.isInData, Id.run, pure_id]
+  bridge_split
 
 end StirVerif.Gen
